@@ -5,6 +5,14 @@ from .C09 import build
 
 
 def run(ctx):
+    _run(ctx)
+    ctx.delegate("C09", ["C09.W5"], "C11.commit",
+                 "everything written before the last completed finalize is readable: every successful write re-arms finalize", floor=1)
+    ctx.delegate("C13", ["C13.short", "C13.errs"], "C11.reader",
+                 "a reader opened on a torn file reports the cut record as an error: no partial read is taken for a full one, "
+                 "no read error is swallowed", floor=100)
+
+def _run(ctx):
     F = ctx.facts("default")
     ctx.rule("C11.W123", "append-only discipline in every reachable abstract writer state: record bytes and index entries only at "
                          "the end of a destination that holds a header; headers only at offset 0 (typestate fixpoint over all histories)", floor=2)
